@@ -401,6 +401,33 @@ def shard(ctx):
                     names_, rep.get("status"), rep.get("compliant"), rep.get("not_applicable"), len(rep.get("not_compliant", [])), want), {"kind": "libfiles", "names": names_})
             else:
                 ctx.res.distinct.add(("library-file", tuple(names_), want))
+    # ---- a clause that PASSES because the rule it names failed (`not size_ok`) is no failed check of the rule that holds it: the entry of that
+    #      rule lists its own failing clause only, wherever the named rule stands in the file (evaluated before, or first reached through the reference)
+    if ctx.mine(3):
+        rdoc = json.dumps({"size": 3, "kind": "y"})
+        r_size = "rule size_ok {\n    size == 2 <<m_size>>\n}\n"
+        for form in ("not size_ok", "!size_ok", "not size_ok <<m_ref>>", "size_ok or\n    kind == \"y\" <<m_alt>>"):
+            r_kind = "rule kind_ok {\n    %s\n    kind == \"x\" <<m_kind>>\n}\n" % form
+            for order in ("named-first", "user-first"):
+                text = (r_size + r_kind) if order == "named-first" else (r_kind + r_size)
+                rn = ctx.w.run({"k": "rc", "data": rdoc, "rules": text, "verbose": False})
+                ctx.res.cases += 1
+                if rn.get("r") != "ok":
+                    ctx.inconclusive("crash" if core.crash_signature(rn) else "passing-reference-gadget-error")
+                    continue
+                rep = json.loads(rn["out"])
+                ent = [e for e in rep.get("not_compliant", []) if e.get("Rule", {}).get("name") == "kind_ok"]
+                ctx.res.counts["passing_reference_gadgets"] += 1
+                if len(ent) != 1:
+                    ctx.violation("passing-reference:entry-count", "kind_ok has %d not_compliant entries" % len(ent), {"kind": "passref", "rules": text, "data": rdoc})
+                    continue
+                blob = json.dumps(ent[0])
+                if "m_size" in blob or "m_kind" not in blob:
+                    ctx.violation("passing-reference:foreign-check-listed", "the entry of kind_ok (clause `%s` passes, `kind == \"x\"` fails) %s%s; %s" % (
+                        form.replace("\n", " "), "lists the failing check of size_ok" if "m_size" in blob else "", "" if "m_kind" in blob else " lacks its own failing check", order),
+                        {"kind": "passref", "rules": text, "data": rdoc})
+                else:
+                    ctx.res.distinct.add(("passing-reference", form.split()[0], order))
     # ---- unary checks over several values of which some pass and some fail: only the failing ones may be listed
     if ctx.mine(1):
         udoc = {"Resources": {"a": {"Tags": [1], "Name": "x"}, "b": {"Name": 5}, "c": {"Tags": [], "Name": ""}, "d": {"Tags": [2], "Name": ["n"]}}}
@@ -533,6 +560,13 @@ def strip_paths(e):
 
 
 def replay(case, w):
+    if case.get("kind") == "passref":
+        rn = w.run({"k": "rc", "data": case["data"], "rules": case["rules"], "verbose": False})
+        if rn.get("r") != "ok":
+            return False, "evaluation failed"
+        ent = [e for e in json.loads(rn["out"]).get("not_compliant", []) if e.get("Rule", {}).get("name") == "kind_ok"]
+        blob = json.dumps(ent)
+        return len(ent) == 1 and "m_size" not in blob and "m_kind" in blob, "entry of kind_ok: %s" % blob[:300]
     if case.get("kind") == "libfiles":
         fl = {"d.json": "{\"a\": 1}", "lib.guard": "let wanted = \"x\"\nrule helper(v) {\n    %v exists\n}\n",
               "skipper.guard": "rule never when zz_nokey exists {\n    a exists\n}\n", "passer.guard": "rule fine {\n    a exists\n}\n"}
